@@ -186,19 +186,21 @@ HOWS = ["clean exit", "exception", "clean exit with a teardown callback", "cance
 
 
 def child_params(tier):
-    return [P("how", 0, 3), P("nested", 0, 1), P("sametask", 0, 3), P("falsy", 0, 1)]
+    return [P("how", 0, 3), P("nested", 0, 1), P("sametask", 0, 4), P("falsy", 0, 1)]
 
 
 @guard
 def child_fn(a, tier):
     from .common import flatten
 
-    how, nested, sametask = pick(a["how"], 4), pick(a["nested"], 2), pick(a["sametask"], 4)
+    how, nested, sametask = pick(a["how"], 4), pick(a["nested"], 2), pick(a["sametask"], 5)
     # sametask 2: held by another task which has already left the child's block: the child is in the middle of its teardown (an async callback is
     # waiting) - it still accepts resources and callbacks, i.e. it is still open in the sense of this property
     mid_teardown = sametask == 2
     # sametask 3: entered by another task that has ENDED without leaving it; nothing references the child any more and the garbage collector has run
     leaked = sametask == 3
+    # sametask 4: the child is constructed inside a component's start() (a ComponentContext is current there), entered after start_component() returned, never left
+    in_component = sametask == 4
     sametask = 1 if sametask == 1 else 0
     falsy = pick(a["falsy"], 2)
 
@@ -241,7 +243,18 @@ def child_fn(a, tier):
                                 await Context(parent).__aenter__()
                                 entered.set()
 
-                            if leaked:
+                            if in_component:
+                                from asphalt.core import Component, start_component
+
+                                class Opener(Component):
+                                    async def start(self):
+                                        # constructed while the component's ComponentContext is current ...
+                                        out["component_child"] = Context()
+
+                                await start_component(Opener, {}, timeout=None)
+                                # ... and entered (never left) once the start-up is over
+                                await out["component_child"].__aenter__()
+                            elif leaked:
                                 import gc
 
                                 tg.start_soon(leaker)
@@ -281,7 +294,7 @@ def child_fn(a, tier):
             tg.cancel_scope.cancel()
 
     _, exc, _k = run(main)
-    summary = {"parent": "nested" if nested else "root", "parent_left_by": HOWS[how], "child": "entered by a task that ended without leaving it, unreferenced, after a GC run" if leaked else "entered in the same task" if sametask else "held by another task, in the middle of its own teardown (async callback waiting)" if mid_teardown else "held open by another task",
+    summary = {"parent": "nested" if nested else "root", "parent_left_by": HOWS[how], "child": "constructed inside a component's start(), entered after the start-up and never left" if in_component else "entered by a task that ended without leaving it, unreferenced, after a GC run" if leaked else "entered in the same task" if sametask else "held by another task, in the middle of its own teardown (async callback waiting)" if mid_teardown else "held open by another task",
                "parent_class": "a falsy Context subclass" if falsy else "Context"}
     e = out.get("exit")
     reported = e is not None and any(isinstance(x, RuntimeError) for x in flatten(e))
